@@ -564,3 +564,145 @@ Proof.
   - intro t. rewrite (proj1 (proj2 (write_splits_pending d budget Hwf))). apply Hwf.
   - apply wf_set_queue; exact Hwf.
 Qed.
+
+(* ---------------------------------------------------------------------------------------------- *)
+(* all objects of a type, class 0 *)
+
+Lemma sorted_bounds m k (p : point) : pmap_sorted ((k, p) :: m) ->
+  Forall (fun kp => k <= fst kp /\ fst kp <= last (map fst ((k, p) :: m)) k) ((k, p) :: m).
+Proof.
+  revert k p. induction m as [|[k' p'] m IH]; intros k p Hs.
+  - cbn. constructor; [cbn; lia|constructor].
+  - destruct (sorted_cons_inv _ _ _ Hs) as [Hs' Hall]. specialize (IH k' p' Hs').
+    inversion Hall as [|? ? Hk _]; subst. cbn [fst] in Hk.
+    assert (Hlast : last (map fst ((k, p) :: (k', p') :: m)) k = last (map fst ((k', p') :: m)) k').
+    { cbn [map fst]. cbn [last]. destruct (map fst m) eqn:Em; [reflexivity|].
+      clear. revert n. induction l as [|x l IHl]; intro n; cbn [last]; [reflexivity|]. apply IHl. }
+    rewrite Hlast. constructor.
+    + cbn [fst]. split; [lia|]. inversion IH as [|? ? [Ha Hb] _]; subst. cbn [fst] in *. lia.
+    + eapply Forall_impl; [|exact IH]. cbn. intros kp [Ha Hb]. split; [lia|exact Hb].
+Qed.
+
+Lemma full_range_all m a b : pmap_sorted m -> pmap_full_range m = Some (a, b) -> pmap_range m a b = m.
+Proof.
+  intros Hs Hf. destruct m as [|[k p] m]; [discriminate|]. cbn [pmap_full_range] in Hf. injection Hf as <- <-.
+  pose proof (sorted_bounds m k p Hs) as Hb. unfold pmap_range.
+  assert (H : forall l, Forall (fun kp => k <= fst kp /\ fst kp <= last (map fst ((k, p) :: m)) k) l ->
+                        filter (in_range k (last (map fst ((k, p) :: m)) k)) l = l).
+  { induction l as [|x l IHl]; intros Hl; cbn [filter]; [reflexivity|]. inversion Hl as [|? ? [Ha Hb'] Hl']; subst.
+    unfold in_range at 1. rewrite (proj2 (N.leb_le _ _) Ha), (proj2 (N.leb_le _ _) Hb'). cbn [andb].
+    rewrite (IHl Hl'). reflexivity. }
+  apply H. exact Hb.
+Qed.
+
+(* "all objects" of a type (qualifier 0x06): every point of the type is reported with its current value *)
+Theorem select_all_objects : forall d t v,
+  sdb_wf d -> sd_maps d t <> [] ->
+  snd (sdb_select_type d t v None) = 0 ->
+  let d' := fst (sdb_select_type d t v None) in
+  exists a b, sd_queue d' = sd_queue d ++ [mkQ t a b v]
+              /\ qitem_items (sd_maps d') (mkQ t a b v)
+                 = map (fun kp => point_item t v (freeze kp)) (sd_maps d t).
+Proof.
+  intros d t v Hwf Hne. unfold sdb_select_type.
+  destruct (pmap_full_range (sd_maps d t)) as [[a b]|] eqn:Ef.
+  - intros Hp. exists a, b.
+    pose proof (select_copies_current d t v a b) as H. unfold sdb_select_type in H.
+    destruct (H Hp) as [H1 H2]. split; [exact H1|]. rewrite H2, (full_range_all _ _ _ (Hwf t) Ef). reflexivity.
+  - destruct (sd_maps d t) as [|[k p] m]; [contradiction|discriminate].
+Qed.
+
+(* what a class 0 scan selects, type by type in the order of the code *)
+Definition class0_items (d : sdb) (t : ptype) : list sitem :=
+  if sd_c0 d t then map (fun kp => point_item t None (freeze kp)) (sd_maps d t) else [].
+
+Lemma select_type_other d t v r t' : ptype_eqb t' t = false ->
+  sd_maps (fst (sdb_select_type d t v r)) t' = sd_maps d t'.
+Proof.
+  intros Hne. unfold sdb_select_type.
+  destruct (match r with Some r0 => Some r0 | None => pmap_full_range (sd_maps d t) end) as [[a b]|]; [|reflexivity].
+  unfold sdb_push. cbn [set_map sd_queue sd_cap sd_maps].
+  destruct (_ =? _); cbn [fst set_queue set_map sd_maps]; rewrite Hne; reflexivity.
+Qed.
+
+Lemma select_type_c0 d t v r : sd_c0 (fst (sdb_select_type d t v r)) = sd_c0 d
+  /\ sd_cap (fst (sdb_select_type d t v r)) = sd_cap d.
+Proof.
+  unfold sdb_select_type.
+  destruct (match r with Some r0 => Some r0 | None => pmap_full_range (sd_maps d t) end) as [[a b]|]; [|split; reflexivity].
+  unfold sdb_push. cbn [set_map sd_queue sd_cap]. destruct (_ =? _); split; reflexivity.
+Qed.
+
+Lemma qitem_items_ext maps maps' q : maps (q_type q) = maps' (q_type q) -> qitem_items maps q = qitem_items maps' q.
+Proof. intros H. unfold qitem_items. rewrite H. reflexivity. Qed.
+
+Lemma class0_step d iin t :
+  sdb_select_class0_type (d, iin) t
+  = if sd_c0 d t then (fst (sdb_select_type d t None None), N.lor iin (snd (sdb_select_type d t None None)))
+    else (d, iin).
+Proof. unfold sdb_select_class0_type. destruct (sd_c0 d t); [|reflexivity]. destruct (sdb_select_type d t None None); reflexivity. Qed.
+
+Lemma class0_fold ts : forall d iin,
+  sdb_wf d -> NoDup ts ->
+  (N.of_nat (length (sd_queue d)) + N.of_nat (length ts) <= sd_cap d) ->
+  Forall (fun q => ~ In (q_type q) ts) (sd_queue d) ->
+  snd (fold_left sdb_select_class0_type ts (d, iin)) = iin
+  /\ sdb_pending (fst (fold_left sdb_select_class0_type ts (d, iin)))
+     = sdb_pending d ++ concat (map (class0_items d) ts).
+Proof.
+  induction ts as [|t ts IH]; intros d iin Hwf Hnd Hcap Hq; cbn [fold_left].
+  - cbn [map concat fst snd]. rewrite app_nil_r. split; reflexivity.
+  - inversion Hnd as [|? ? Hnotin Hnd']; subst.
+    assert (Hq'' : Forall (fun q => ~ In (q_type q) ts) (sd_queue d)).
+    { eapply Forall_impl; [|exact Hq]. intros q Hn Hin. apply Hn. right; exact Hin. }
+    rewrite class0_step. cbn [map concat]. unfold class0_items at 1.
+    destruct (sd_c0 d t) eqn:Ec0.
+    + destruct (sd_maps d t) as [|kp0 m0] eqn:Em.
+      * (* no point of this type: nothing is selected *)
+        assert (Hsel : sdb_select_type d t None None = (d, 0)).
+        { unfold sdb_select_type. rewrite Em. reflexivity. }
+        rewrite Hsel. cbn [fst snd map app]. rewrite N.lor_0_r.
+        apply IH; [exact Hwf|exact Hnd'|cbn [length] in Hcap; lia|exact Hq''].
+      * assert (Hne : sd_maps d t <> []) by (rewrite Em; discriminate).
+        assert (Hpush : snd (sdb_select_type d t None None) = 0).
+        { unfold sdb_select_type. rewrite Em. destruct kp0 as [k0 p0]. cbn [pmap_full_range].
+          unfold sdb_push. cbn [set_map sd_queue sd_cap].
+          destruct (N.of_nat (length (sd_queue d)) =? sd_cap d) eqn:E; [|reflexivity].
+          apply N.eqb_eq in E. cbn [length] in Hcap. lia. }
+        destruct (select_all_objects d t None Hwf Hne Hpush) as (a & b & Hq' & Hitems).
+        pose proof (wf_select_type d t None None Hwf) as Hwf'.
+        pose proof (select_type_other d t None None) as Hother.
+        pose proof (select_type_c0 d t None None) as [Hc0' Hcap'].
+        rewrite Hpush, N.lor_0_r. set (d' := fst (sdb_select_type d t None None)) in *.
+        assert (Hrest : map (class0_items d') ts = map (class0_items d) ts).
+        { apply map_ext_in. intros t' Ht'. unfold class0_items. rewrite Hc0'.
+          rewrite Hother; [reflexivity|]. destruct (ptype_eqb t' t) eqn:E; [|reflexivity].
+          apply ptype_eqb_eq in E. subst t'. contradiction. }
+        destruct (IH d' iin Hwf' Hnd') as [I1 I2].
+        { rewrite Hcap', Hq', app_length. cbn [length] in *. lia. }
+        { rewrite Hq'. apply Forall_app. split; [exact Hq''|].
+          constructor; [cbn [q_type]; exact Hnotin|constructor]. }
+        split; [exact I1|]. rewrite I2, Hrest. rewrite <- Em. rewrite <- Hitems, app_assoc. f_equal.
+        unfold sdb_pending. rewrite Hq', map_app, concat_app. cbn [map concat]. rewrite app_nil_r. f_equal.
+        (* earlier queue entries are of other types: their items are unchanged *)
+        f_equal. apply map_ext_in. intros q Hin. apply qitem_items_ext. apply Hother.
+        rewrite Forall_forall in Hq. specialize (Hq q Hin). destruct (ptype_eqb (q_type q) t) eqn:E; [|reflexivity].
+        apply ptype_eqb_eq in E. exfalso. apply Hq. left. symmetry. exact E.
+    + cbn [app]. apply IH; [exact Hwf|exact Hnd'|cbn [length] in Hcap; lia|exact Hq''].
+Qed.
+
+(* class 0 (g60v1): with an empty selection queue, the scan reports every point of every enabled type
+   with its current value in the configured (promoted) variation, types in the fixed order of the code *)
+Theorem select_class0_all_points : forall d,
+  sdb_wf d -> sd_queue d = [] -> 8 <= sd_cap d ->
+  snd (sdb_select d SelClass0) = 0
+  /\ sdb_pending (fst (sdb_select d SelClass0)) = concat (map (class0_items d) all_ptypes).
+Proof.
+  intros d Hwf Hq Hcap. cbn [sdb_select].
+  assert (Hnd : NoDup all_ptypes).
+  { unfold all_ptypes. repeat (constructor; [cbn; intuition discriminate|]). constructor. }
+  destruct (class0_fold all_ptypes d 0 Hwf Hnd) as [H1 H2].
+  - rewrite Hq. cbn. lia.
+  - rewrite Hq. constructor.
+  - split; [exact H1|]. rewrite H2. unfold sdb_pending. rewrite Hq. reflexivity.
+Qed.
